@@ -670,7 +670,7 @@ pub fn legality_cells() -> Vec<(String, Vec<String>, Option<Vec<u16>>)>
 /// arrangements of the declaration, the constant N and the declarations of S, W and O. The
 /// expectation is order-independence (and no crash, no silent failure): whether a term is legal
 /// in a position is judged by `legality_cells` on the hand-picked terms only.
-pub const DEEP_CONSTRUCTORS: [&str; 5] = ["&", "[3]", "[]", "[N]", "[..]"];
+pub const DEEP_CONSTRUCTORS: [&str; 6] = ["&", "[3]", "[]", "[N]", "[M]", "[..]"];
 pub const DEEP_BASES: [&str; 4] = ["i32", "S", "W", "O"];
 pub const DEEP_POSITIONS: [&str; 8] = ["variable", "parameter", "struct member", "word member", "return type", "extern parameter", "size-of operand", "member of a structure that is used as a member"];
 
@@ -698,9 +698,13 @@ pub fn deep_terms(max_depth: usize) -> Vec<String>
 fn deep_features(t: &str) -> String
 {
 	let mut f: Vec<&str> = Vec::new();
-	if let Some(i) = t.find("[N]")
+	if let Some(i) = t.find("[N]").or(t.find("[M]"))
 	{
 		f.push(if t[..i].contains('&') { "named length behind a pointer" } else { "named length" });
+		if t.contains("[N]") && t.contains("[M]")
+		{
+			f.push("two named lengths");
+		}
 	}
 	if t.ends_with('O')
 	{
@@ -751,6 +755,10 @@ pub fn deep_size(t: &str) -> Option<u64>
 	{
 		return deep_size(rest).map(|s| 2 * s);
 	}
+	if let Some(rest) = t.strip_prefix("[M]")
+	{
+		return deep_size(rest).map(|s| 3 * s);
+	}
 	match t
 	{
 		"i32" | "S" | "W" => Some(4),
@@ -760,7 +768,9 @@ pub fn deep_size(t: &str) -> Option<u64>
 
 pub fn deep_type_cell(t: &str, pos: &str) -> (String, Vec<String>)
 {
-	let helpers = "struct S\n{\n\ta: i32,\n}\nword32 W\n{\n\ta: i32,\n}\nstruct O;\n";
+	// M is derived from N and declared with the helpers, so that the two named lengths move
+	// independently of each other through the arrangements
+	let helpers = "struct S\n{\n\ta: i32,\n}\nword32 W\n{\n\ta: i32,\n}\nstruct O;\nconst M: usize = N + 1;\n";
 	let main = "fn main()\n{\n}\n";
 	let n_const = "const N: usize = 2;\n";
 	let decl = match pos
